@@ -194,8 +194,8 @@ Print Assumptions reachable_states_satisfy_DepInv.
     [st]: evaluated on the observation of the state reached, [holds_C07] never answers 1 (deposit
     escrow <> sum of binding deposits) nor 2 (request escrow <> active fees + earned fees) — the
     boolean clauses the checker evaluates are re-proved over the observation lists from [DepInv]
-    and [EscInv].  PARTIAL: clauses 3-6 are not covered here (3: see below; 4-6 compare two
-    consecutive observations). *)
+    and [EscInv].  Clause 3: next theorem.  PARTIAL: clauses 4-6 (they compare two consecutive
+    observations) are not covered. *)
 Theorem model_passes_C07_clauses_1_2 :
   forall c steps h0 t0 l0 univ p st code nc cb,
     clean l0 -> NoDup (create_txhs steps) ->
@@ -205,6 +205,19 @@ Theorem model_passes_C07_clauses_1_2 :
     k <> 1 /\ k <> 2.
 Proof. exact model_passes_C07_clauses_1_2_lemma. Qed.
 Print Assumptions model_passes_C07_clauses_1_2.
+
+(** clause 3, over EVERY history without any hypothesis: every owner-side tally entry equals the
+    sum of the provider-side tallies of the providers whose BINDINGS name that owner, and the
+    owner entry of every earning provider's owner equals that sum — the checker reads the owner of
+    a provider off the observed bindings; that this is the owner the keeper credits is the
+    invariant [WInv] of Service/ProofsCheck.v (every binding of a provider records the provider's
+    owner; only bound providers have an owner) *)
+Theorem model_passes_C07_clause_3 :
+  forall c steps h0 t0 l0 univ p st code nc cb,
+    let s := run c (init h0 t0 l0) steps in
+    holds_C07 c p st (obs_of univ code nc cb s) <> 3.
+Proof. exact model_passes_C07_clause_3_lemma. Qed.
+Print Assumptions model_passes_C07_clause_3.
 
 (** ** the hypotheses are satisfiable, the conclusions are not vacuous: a history with a
     time-discounted binding (price 100, half price until t = 2000), a second flat binding
